@@ -661,7 +661,11 @@ func main() {
 	ld := loadSide(fi)
 	cl, ul := commitLoops(parse(filepath.Join(repo, "lib/query/transaction.go")))
 	st := setters(fi)
-	ad := attributeDispatch(parse(filepath.Join(repo, "lib/query/query.go")))
+	qf := parse(filepath.Join(repo, "lib/query/query.go"))
+	ad := attributeDispatch(qf)
+	ow := optionWrites(repo)
+	cas := createdAttrSources(fi, qf)
+	rsrc, rov, rtail := resultFacts(parse(filepath.Join(repo, "lib/query/processor.go")))
 
 	var b strings.Builder
 	w := func(format string, a ...interface{}) { fmt.Fprintf(&b, format+"\n", a...) }
@@ -706,6 +710,23 @@ func main() {
 	w("")
 	w("/-- SetTableAttribute: attribute name constant → setter (`!`: the value is negated on the way) -/")
 	w("def attributeSetters : List (String × String) := [%s]", strings.Join(ad, ", "))
+	w("")
+	w("/-- every function under lib/ that assigns a field of Flags.ExportOptions / Flags.ImportOptions, with the fields (for")
+	w("    the methods of *Flags: closed under the *Flags methods they call) -/")
+	w("def optionWrites : List (String × List String) := [%s]", strings.Join(ow, ", "))
+	w("")
+	w("/-- CreateTable: where every field of the new table's FileInfo comes from (`<p> e`: through parameter p of")
+	w("    NewFileInfoForCreate, called with e) -/")
+	w("def createdAttrSources : List (String × String) := [%s]", strings.Join(cas, ", "))
+	w("")
+	w("/-- … the fields among them that are taken from a session option: (FileInfo field, option field) -/")
+	w("def createdAttrOptionReads : List (String × String) := [%s]", strings.Join(optionReads(cas), ", "))
+	w("")
+	w("/-- the SELECT that writes a result: the options handed to EncodeView, what is overridden in them, the condition in")
+	w("    front of the ending line break -/")
+	w("def resultOptionsSource : String := %s", lit(rsrc))
+	w("def resultOptionsOverrides : List String := %s", list(rov))
+	w("def resultTailCond : String := %s", lit(rtail))
 	w("")
 	w("end Csvq.Gen")
 	fmt.Print(b.String())
